@@ -152,7 +152,8 @@ def run(
     """
     cwd = cwd or SPECS
     meta = tempfile.mkdtemp(prefix="tlcmeta_")
-    java_opts = [f"-Xmx{heap}", "-Xss64m", "-XX:+UseParallelGC"]
+    # (TLC creates an empty "tlc-<n>" directory under java.io.tmpdir on every start: kept inside the meta directory)
+    java_opts = [f"-Xmx{heap}", "-Xss64m", "-XX:+UseParallelGC", f"-Djava.io.tmpdir={meta}"]
     if dfs_queue:
         java_opts.append("-Dtlc2.tool.queue.IStateQueue=StateDeque")
     cmd = ["java"] + java_opts + ["-cp", f"{JAR}:{DEPS}", "tlc2.TLC",
